@@ -1,4 +1,4 @@
-(* C11 — in-silico PCR: executable model of obiapat._Pcr (pkg/obiapat/pcr.go), of the circular-aware
+(* C11 — in-silico PCR: executable model of obiapat._Pcr and _Segment (pkg/obiapat/pcr.go), of the circular-aware
    obiseq.Subsequence and of the C sequence buffer (obiapat.c: new_apatseq / EncodeSequence), running on
    the SPECIFICATION matcher (start positions where the IUPAC primer fits with <= e mismatches, with that
    count) in place of the C bit-parallel matcher (whose exactness is property C10).
@@ -7,15 +7,21 @@ From Coq Require Import ZArith NArith List Bool.
 Import ListNotations.
 Open Scope Z_scope.
 
-(* template letters: 0 a, 1 c, 2 g, 3 t, anything else (n, ...) >= 4;  primer symbols: bit k = letter k accepted *)
+(* template letters: 0 a, 1 c, 2 g, 3 t, anything else (n, ...) >= 4;  primer symbols (one pattern position: IUPAC letter,
+   [..] class, !negation, optional # mark): bit k < 4 = letter k accepted; bit 4 = obligatory position (`#`: no mismatch
+   allowed there); bit 5 = letters other than a/c/g/t accepted (only negated positions: !X is the complement of X over
+   the whole alphabet) *)
 Definition nuc := N.
 Definition sym := N.
 
-Definition sym_match (p : sym) (x : nuc) : bool := (x <? 4)%N && N.testbit p x.
+Definition sym_match (p : sym) (x : nuc) : bool := if (x <? 4)%N then N.testbit p x else N.testbit p 5.
+(* cost of a mismatch: 1, or more than any error budget (MAX_PAT_ERR = 64) on an obligatory position *)
+Definition miss (p : sym) : N := if N.testbit p 4 then 1000%N else 1%N.
 Definition comp_nuc (x : nuc) : nuc := if (x <? 4)%N then (3 - x)%N else x.
 Definition b2n (b : bool) : N := if b then 1%N else 0%N.
 Definition comp_sym (p : sym) : sym :=
-  (b2n (N.testbit p 3) + 2 * b2n (N.testbit p 2) + 4 * b2n (N.testbit p 1) + 8 * b2n (N.testbit p 0))%N.
+  (b2n (N.testbit p 3) + 2 * b2n (N.testbit p 2) + 4 * b2n (N.testbit p 1) + 8 * b2n (N.testbit p 0)
+   + 16 * b2n (N.testbit p 4) + 32 * b2n (N.testbit p 5))%N.
 Definition rc (s : list nuc) : list nuc := rev (map comp_nuc s).
 Definition rc_primer (p : list sym) : list sym := rev (map comp_sym p).
 
@@ -23,7 +29,7 @@ Definition len {A} (l : list A) : Z := Z.of_nat (length l).
 Definition slice {A} (l : list A) (a b : Z) : list A := firstn (Z.to_nat (b - a)) (skipn (Z.to_nat a) l).
 
 (* ---------------------------------------------------------------- specification matcher *)
-(* number of mismatches of primer p against the text read from its head; None: the text is too short *)
+(* number of mismatches (weighted by miss) of primer p against the text read from its head; None: the text is too short *)
 Fixpoint mism (p : list sym) (w : list nuc) : option N :=
   match p, w with
   | [], _ => Some 0%N
@@ -31,7 +37,7 @@ Fixpoint mism (p : list sym) (w : list nuc) : option N :=
   | s :: p', x :: w' =>
       match mism p' w' with
       | None => None
-      | Some k => Some (if sym_match s x then k else N.succ k)
+      | Some k => Some (if sym_match s x then k else (k + miss s)%N)
       end
   end.
 
@@ -90,6 +96,36 @@ Definition subseq (t : list nuc) (from to : Z) (circular : bool) : option (list 
       if from <? to then Some (slice t from to)
       else Some (slice t from L ++ slice t 0 to).
 
+(* ---------------------------------------------------------------- obiapat._Segment *)
+(* the loop of _Segment: while the segment is shorter than n, append the piece of the circle that follows it, up to
+   the end of the template at most; the fuel is never exhausted when fuel >= n (each turn adds at least one letter) *)
+Fixpoint seg_loop (fuel : nat) (t s : list nuc) (from n : Z) : list nuc :=
+  match fuel with
+  | O => s
+  | S f =>
+      if len s <? n then
+        let start := (from + len s) mod len t in
+        let stop := Z.min (start + n - len s) (len t) in
+        seg_loop f t (s ++ slice t start stop) from n
+      else s
+  end.
+
+(* _Segment(reference, from, to, circular): Subsequence on a linear template; on a circular one the to-from letters read
+   along the circle from position from (any integer), going around as many times as needed. None = error return /
+   integer division by a zero length *)
+Definition segment (t : list nuc) (from to : Z) (circular : bool) : option (list nuc) :=
+  if negb circular then subseq t from to false
+  else
+    let L := len t in
+    if L =? 0 then None
+    else
+      let n := to - from in
+      let from := from mod L in
+      match subseq t from (from + Z.min n L) true with
+      | None => None
+      | Some s => Some (seg_loop (Z.to_nat n) t s from n)
+      end.
+
 (* ---------------------------------------------------------------- _Pcr *)
 Record opts := mko {
   o_fwd : list sym; o_rev : list sym; o_ef : N; o_er : N;
@@ -110,14 +146,16 @@ Definition insert_length (o : opts) (L : Z) (fm rm : Z * Z * N) : Z :=
 Definition length_ok (o : opts) (l : Z) : bool :=
   (0 <? l) && ((o_min o =? 0) || (o_min o <=? l)) && ((o_max o =? 0) || (l <=? o_max o)).
 
-(* the bounds of the amplicon cut: None = pair skipped (full extension requested and not available) *)
-Definition cut_bounds (o : opts) (L : Z) (fm rm : Z * Z * N) : option (Z * Z) :=
+(* the bounds of the amplicon cut, ins = the insert length computed above: None = pair skipped (full extension requested
+   and not available). On a circular template the segment starts at the end of the first match (or x bases before its
+   start) and its length is the insert length measured along the circle (plus both matches and both flanks) *)
+Definition cut_bounds (o : opts) (L : Z) (ins : Z) (fm rm : Z * Z * N) : option (Z * Z) :=
   match o_ext o with
-  | None => Some (snd3 fm, fst3 rm)
+  | None => if o_circ o then Some (snd3 fm, snd3 fm + ins) else Some (snd3 fm, fst3 rm)
   | Some x =>
       let from := fst3 fm - x in
       let to := snd3 rm + x in
-      if o_circ o then Some (from mod L, to)
+      if o_circ o then Some (from, from + ins + (snd3 fm - fst3 fm + (snd3 rm - fst3 rm)) + 2 * x)
       else
         let from' := if o_full o then from else if from <? 0 then 0 else from in
         let to' := if o_full o then to else if L <? to then L else to in
@@ -136,17 +174,19 @@ Definition mk_amp (fwd_block : bool) (a f : list nuc) (kf : N) (r : list nuc) (k
 (* one pair of matches: [] skipped, [Some a] an amplicon, [None] the fatal error *)
 Definition pair_amplicon (o : opts) (t : list nuc) (fwd_block : bool) (fm rm : Z * Z * N) : list (option amplicon) :=
   let L := len t in
-  if (fst3 fm <? L) && (fst3 rm <? L) && length_ok o (insert_length o L fm rm) then
-    match cut_bounds o L fm rm with
+  let ins := insert_length o L fm rm in
+  if (fst3 fm <? L) && (fst3 rm <? L) && length_ok o ins then
+    match cut_bounds o L ins fm rm with
     | None => []
     | Some (from, to) =>
-        [ opt3 (subseq t from to (o_circ o)) (subseq t (fst3 fm) (snd3 fm) (o_circ o)) (subseq t (fst3 rm) (snd3 rm) (o_circ o))
+        [ opt3 (segment t from to (o_circ o)) (segment t (fst3 fm) (snd3 fm) (o_circ o)) (segment t (fst3 rm) (snd3 rm) (o_circ o))
             (fun a f r => mk_amp fwd_block a f (err3 fm) r (err3 rm)) ]
     end
   else [].
 
 (* one orientation block of _Pcr, reading the letters `data` visible in the C buffer: pf searched over the whole
-   template, pr (the complemented partner) in the window *)
+   template, pr (the complemented partner) in the window [first match of pf, end of its last match + max + len pr)
+   (+ the MAX_PAT_LEN margin added by FindAllIndex, see find_all) *)
 Definition block_on (data : list nuc) (o : opts) (t : list nuc) (pf : list sym) (ef : N) (pr : list sym) (er : N)
            (fwd_block : bool) : list (option amplicon) :=
   let L := len t in
@@ -156,7 +196,7 @@ Definition block_on (data : list nuc) (o : opts) (t : list nuc) (pf : list sym) 
   | fm0 :: _ =>
       let begin := fst3 fm0 in
       let length := L - begin in
-      let length := if 0 <? o_max o then snd3 (last fms fm0) - begin + o_max o + len (o_rev o) else length in
+      let length := if 0 <? o_max o then snd3 (last fms fm0) - begin + o_max o + len pr else length in
       let begin := if o_circ o then 0 else begin in
       let length := if o_circ o then L + MAX_PAT_LEN else length in
       let rms := find_all pr er data L begin length in
@@ -241,3 +281,40 @@ Fixpoint mismatches_from (i : nat) (cs : list case) : list nat :=
   end.
 
 Definition mismatches (cs : list case) : list nat := mismatches_from 0 cs.
+
+(* ---------------------------------------------------------------- obiiter.IFragments (obipcr --fragmented) *)
+(* the cutting loop `for i := 0; i < N; i += step`: fragment [i, min(i+length, N)), extended to N (and the loop ended)
+   when fewer than step positions would remain after it; fuel N is enough when step >= 1 *)
+Fixpoint frag_loop (fuel : nat) (N length step i : Z) : list (Z * Z) :=
+  match fuel with
+  | O => []
+  | S f =>
+      if i <? N then
+        let e := Z.min (i + length) N in
+        if N - e <? step then [(i, N)]
+        else (i, e) :: frag_loop f N length step (i + step)
+      else []
+  end.
+
+(* sequences not longer than minsize are passed unchanged *)
+Definition fragments (minsize length overlap N : Z) : list (Z * Z) :=
+  if N <=? minsize then [(0, N)] else frag_loop (Z.to_nat N) N length (length - overlap) 0.
+
+Record fcase := mkf { f_minsize : Z; f_length : Z; f_overlap : Z; f_N : Z; f_obs : list (Z * Z) }.
+
+Fixpoint zz_eqb (a b : list (Z * Z)) : bool :=
+  match a, b with
+  | [], [] => true
+  | (x1, y1) :: a', (x2, y2) :: b' => (x1 =? x2) && (y1 =? y2) && zz_eqb a' b'
+  | _, _ => false
+  end.
+
+Fixpoint frag_mismatches_from (i : nat) (cs : list fcase) : list nat :=
+  match cs with
+  | [] => []
+  | c :: r =>
+      if zz_eqb (fragments (f_minsize c) (f_length c) (f_overlap c) (f_N c)) (f_obs c) then frag_mismatches_from (S i) r
+      else i :: frag_mismatches_from (S i) r
+  end.
+
+Definition frag_mismatches (cs : list fcase) : list nat := frag_mismatches_from 0 cs.
